@@ -76,10 +76,11 @@ class SymKernel(BaseKernel):
         return v, format(v, "")
 
     def install_tokens(self):
-        """Shadow float/int in the repository's parser modules so that number tokens read back as their symbols."""
+        """Shadow float/int in EVERY loaded module of the repository (wherever a refactor may have moved the parsing code), so
+        that number tokens read back as their symbols."""
+        import sys
         from gsv.engine import tokens
-        r = self.r
-        tokens.install([r.vertex, r.edge_odometry, r.edge_landmark, r.g2o_parameters, r.graph])
+        tokens.install([m for name, m in list(sys.modules.items()) if m is not None and (name == "graphslam" or name.startswith("graphslam."))])
 
     def unit_quat(self, name):
         x, y, z, w = [self._var(name + c) for c in "xyzw"]
@@ -134,6 +135,14 @@ class SymKernel(BaseKernel):
         g["status"] = "proved" if g.pop("ok") else "failed"
         g["backend"] = "execution"
         g["n"] = 1
+        if g["status"] == "failed":
+            import re
+            if re.search(r"@[SL]\d+@", g.get("detail", "")):
+                # an opaque number token reached a conversion that is not shadowed: a limit of the model, not an observation
+                self.goals.pop()
+                raise Unsupported("a number token reached an unshadowed float()/int(): %s" % g.get("detail", "")[:160])
+            # an exception observed under the shim counts only if the real code reproduces it (decided by the runner)
+            g["shim_exception"] = True
         return v
 
     def raises(self, thunk, label, exc=Exception):
